@@ -4,6 +4,7 @@ package main
 // per acyclic path between cut points (entry, annotated loop heads, exits).
 
 import (
+	"go/ast"
 	"fmt"
 	"go/constant"
 	"go/token"
@@ -520,6 +521,9 @@ func (ex *Exec) havocLoop(st *State, fr *Frame, head *ssa.BasicBlock) {
 					res := cc.Signature().Results()
 					for i := 0; i < res.Len(); i++ {
 						ms.write(fmt.Sprintf("%s.%d", base, i), sortOf(res.At(i).Type()))
+						if sl, ok := res.At(i).Type().Underlying().(*types.Slice); ok && sortOf(sl.Elem()) == SortInt {
+							ms.write(fmt.Sprintf("%s.%d.bytes", base, i), SortBytes)
+						}
 					}
 				}
 			}
@@ -1466,7 +1470,9 @@ func (ex *Exec) makeInterface(st *State, v Val, from types.Type, to types.Type) 
 	}
 	if v.T.Sort == SortInt {
 		if _, isPtr := from.Underlying().(*types.Pointer); isPtr {
-			return TV(MkIface(tid, v.T), to)
+			iv := MkIface(tid, v.T)
+			ex.unwrapAxiom(st, iv, v.T, from)
+			return TV(iv, to)
 		}
 	}
 	fn := ex.boxFn(st, v.T.Sort)
@@ -1617,4 +1623,122 @@ func flatStruct(s *types.Struct) bool {
 		}
 	}
 	return true
+}
+
+// unwrapAxiom: a pointer to a struct type of this module whose method
+// `Unwrap() error` is exactly `return recv.f` (checked on the syntax), and
+// whose field f is only ever initialised in composite literals (checked on
+// the SSA of the defining package), is an error whose Is-chain is itself
+// followed by the chain of f. Emitted where the pointer becomes an interface.
+func (ex *Exec) unwrapAxiom(st *State, iv, p Term, from types.Type) {
+	pt, ok := from.Underlying().(*types.Pointer)
+	if !ok {
+		return
+	}
+	named, ok := pt.Elem().(*types.Named)
+	if !ok || named.Obj().Pkg() == nil || !strings.HasPrefix(named.Obj().Pkg().Path(), "filippo.io/age") {
+		return
+	}
+	fld := ex.unwrapField(named)
+	if fld == nil {
+		return
+	}
+	h := st.heap(fieldHeapName(pt.Elem(), fld), ArraySort(sortOf(fld.Type())))
+	st.emit(fmt.Sprintf("(assert (=> (> %s 0) (forall ((t Iface)) (! (= (wraps %s t) (or (= t %s) (wraps (select %s %s) t))) :pattern ((wraps %s t))))))",
+		p.S, iv.S, iv.S, h.S, p.S, iv.S))
+}
+
+var unwrapFieldCache = map[*types.Named]*types.Var{}
+var unwrapFieldDone = map[*types.Named]bool{}
+
+func (ex *Exec) unwrapField(named *types.Named) *types.Var {
+	if unwrapFieldDone[named] {
+		return unwrapFieldCache[named]
+	}
+	unwrapFieldDone[named] = true
+	sel := ex.prog.MethodSets.MethodSet(types.NewPointer(named)).Lookup(named.Obj().Pkg(), "Unwrap")
+	if sel == nil {
+		return nil
+	}
+	fn := ex.prog.MethodValue(sel)
+	if fn == nil || fn.Syntax() == nil {
+		return nil
+	}
+	fd, ok := fn.Syntax().(*ast.FuncDecl)
+	if !ok || fd.Body == nil || len(fd.Body.List) != 1 || fd.Recv == nil || len(fd.Recv.List) != 1 || len(fd.Recv.List[0].Names) != 1 {
+		return nil
+	}
+	if fn.Signature.Params().Len() != 0 || fn.Signature.Results().Len() != 1 || !types.Identical(fn.Signature.Results().At(0).Type(), types.Universe.Lookup("error").Type()) {
+		return nil
+	}
+	ret, ok := fd.Body.List[0].(*ast.ReturnStmt)
+	if !ok || len(ret.Results) != 1 {
+		return nil
+	}
+	se, ok := ret.Results[0].(*ast.SelectorExpr)
+	if !ok {
+		return nil
+	}
+	id, ok := se.X.(*ast.Ident)
+	if !ok || id.Name != fd.Recv.List[0].Names[0].Name {
+		return nil
+	}
+	stt, ok := named.Underlying().(*types.Struct)
+	if !ok {
+		return nil
+	}
+	idx, fld := fieldByName(stt, se.Sel.Name)
+	if fld == nil || !types.Identical(fld.Type(), types.Universe.Lookup("error").Type()) {
+		return nil
+	}
+	// the field is written only when a fresh object is initialised
+	pkg := ex.prog.Package(named.Obj().Pkg())
+	if pkg == nil {
+		return nil
+	}
+	okInit := true
+	var scan func(f *ssa.Function)
+	scan = func(f *ssa.Function) {
+		for _, b := range f.Blocks {
+			for _, ins := range b.Instrs {
+				stor, ok := ins.(*ssa.Store)
+				if !ok {
+					continue
+				}
+				fa, ok := stor.Addr.(*ssa.FieldAddr)
+				if !ok || fa.Field != idx {
+					continue
+				}
+				if p, ok := fa.X.Type().Underlying().(*types.Pointer); !ok || !types.Identical(p.Elem(), named) {
+					continue
+				}
+				if _, isAlloc := fa.X.(*ssa.Alloc); !isAlloc {
+					okInit = false
+				}
+			}
+		}
+		for _, an := range f.AnonFuncs {
+			scan(an)
+		}
+	}
+	for _, m := range pkg.Members {
+		if f, ok := m.(*ssa.Function); ok {
+			scan(f)
+		}
+		if t, ok := m.(*ssa.Type); ok {
+			for _, ty := range []types.Type{t.Type(), types.NewPointer(t.Type())} {
+				ms := ex.prog.MethodSets.MethodSet(ty)
+				for i := 0; i < ms.Len(); i++ {
+					if f := ex.prog.MethodValue(ms.At(i)); f != nil && f.Pkg == pkg {
+						scan(f)
+					}
+				}
+			}
+		}
+	}
+	if !okInit {
+		return nil
+	}
+	unwrapFieldCache[named] = fld
+	return fld
 }
